@@ -536,6 +536,60 @@ func ruleYAMLTable(c *Ctx) {
 }
 
 // registeredValidators: tag -> library functions its validator calls.
+// validatorTable: (tag, function) pairs written as elements of a struct table in package config
+// (a string constant and a function stored into two fields of the same element).
+func validatorTable(p *Program) map[string]*ssa.Function {
+	out := map[string]*ssa.Function{}
+	for _, f := range p.allFuncs {
+		if !inPkg(f, "config") {
+			continue
+		}
+		type pair struct {
+			tag string
+			fn  *ssa.Function
+		}
+		elems := map[ssa.Value]*pair{}
+		for _, b := range f.Blocks {
+			for _, in := range b.Instrs {
+				st, ok := in.(*ssa.Store)
+				if !ok {
+					continue
+				}
+				fa, ok := st.Addr.(*ssa.FieldAddr)
+				if !ok {
+					continue
+				}
+				if _, isElem := fa.X.(*ssa.IndexAddr); !isElem {
+					if _, isAlloc := fa.X.(*ssa.Alloc); !isAlloc {
+						continue
+					}
+				}
+				pr := elems[fa.X]
+				if pr == nil {
+					pr = &pair{}
+					elems[fa.X] = pr
+				}
+				switch x := stripConv(st.Val).(type) {
+				case *ssa.Const:
+					if sv, ok := constTerm(x.Value, x.Type()).StrVal(); ok {
+						pr.tag = sv
+					}
+				case *ssa.Function:
+					pr.fn = x
+				case *ssa.MakeClosure:
+					pr.fn, _ = x.Fn.(*ssa.Function)
+				}
+			}
+		}
+		for _, pr := range elems {
+			if pr.tag != "" && pr.fn != nil {
+				out[pr.tag] = pr.fn
+			}
+		}
+	}
+	return out
+}
+
 func registeredValidators(p *Program) (map[string]map[string]bool, map[string]bool) {
 	regs := map[string]map[string]bool{}
 	aliases := map[string]bool{}
@@ -585,7 +639,25 @@ func registeredValidators(p *Program) (map[string]map[string]bool, map[string]bo
 				}
 				cst, ok := call.Call.Args[0].(*ssa.Const)
 				if !ok {
-					continue // a registrar forwarding its own parameter
+					// a registrar forwarding its own parameter, or a loop over a (tag, function) table
+					if _, isParam := call.Call.Args[0].(*ssa.Parameter); !isParam && k == "validate" {
+						for tag, fnv := range validatorTable(p) {
+							calls := map[string]bool{}
+							for g := range staticScope(fnv, "config", 2) {
+								for _, bb := range g.Blocks {
+									for _, i2 := range bb.Instrs {
+										if ci, ok := i2.(ssa.CallInstruction); ok {
+											if sc := ci.Common().StaticCallee(); sc != nil {
+												calls[sc.String()] = true
+											}
+										}
+									}
+								}
+							}
+							regs[tag] = calls
+						}
+					}
+					continue
 				}
 				tag, _ := constTerm(cst.Value, cst.Type()).StrVal()
 				if k == "alias" {
